@@ -429,7 +429,7 @@ func (term *TermInvoke) Operands() []*value.Value {
 	ops := make([]*value.Value, 0, 1+len(term.Args)+1+1)
 	ops = append(ops, &term.Invokee)
 	for i := range term.Args {
-		ops = append(ops, &term.Args[i])
+		ops = append(ops, argOperand(term.Args, i))
 	}
 	for _, bundle := range term.OperandBundles {
 		for i := range bundle.Inputs {
@@ -599,7 +599,7 @@ func (term *TermCallBr) Operands() []*value.Value {
 	ops := make([]*value.Value, 0, 1+len(term.Args)+1+len(term.OtherRetTargets))
 	ops = append(ops, &term.Callee)
 	for i := range term.Args {
-		ops = append(ops, &term.Args[i])
+		ops = append(ops, argOperand(term.Args, i))
 	}
 	for _, bundle := range term.OperandBundles {
 		for i := range bundle.Inputs {
